@@ -17,7 +17,7 @@ func init() {
 }
 
 func (c *Ctx) tokenRenderFn() *ssa.Function {
-	for _, f := range c.codeImpls("render") {
+	for _, f := range c.codeImpls(c.renderName()) {
 		if f.Synthetic == "" && f.Signature.Recv() != nil && types.TypeString(f.Signature.Recv().Type(), shortQual) == "jen.token" {
 			return f
 		}
